@@ -181,7 +181,11 @@ impl HashJoinOperator {
 
     /// Builds the hash table from the build side.
     fn build_hash_table(&mut self) -> Result<(), OperatorError> {
-        while let Some(chunk) = self.build_side.next()? {
+        while let Some(mut chunk) = self.build_side.next()? {
+            // Hash table entries and outer-join match tracking address build rows by
+            // their physical position, so a selection vector (e.g. from a filter below
+            // the join) is resolved first.
+            chunk.flatten();
             let chunk_idx = self.build_chunks.len();
 
             // Initialize match tracking for outer joins
